@@ -105,6 +105,39 @@ Theorem C40_append_accounting : forall relab bsz nbq ext n0 ops,
   nextid s = Z.of_nat (length (fed s)) + n_old s + n_dropped s + n_unint s.
 Proof. exact append_accounting. Qed.
 
+(* Flush on stop.  In the model the FlushAndShutdown goroutine of a queue has no way to give up:
+   its only steps are OFlushPush (tryEnqueueingBatch) and, after a successful one, OFlushClose.  On
+   a full channel OFlushPush is a no-op that leaves the goroutine where it was, so the step stays
+   enabled and has to be taken again (the `for q.tryEnqueueingBatch(done) { wait 1s }` loop); the
+   channel cannot be closed before; once the channel has room the whole partial batch is handed
+   over.  The only other exit is OHard (flush deadline), which sets [lossy].  C40_per_series_exact
+   (delivered = accepted at quiescence when not lossy) rests on exactly this: a state in which a
+   queue was closed with its partial batch dropped is not reachable.  That the loop is actually
+   taken until it succeeds (fairness / liveness) is not a Coq theorem; it is covered by the tie:
+   scripts in which FlushAndShutdown stays blocked for > 2 s on a full channel (agree), and
+   concurrent runs in which the endpoint stalls or fails recoverably for > 2.5 s during
+   Stop / reshard with full channels and non-empty partial batches (holds: exact delivery). *)
+Theorem C40_flush_retries_until_enqueued : forall nbq sh, sh_fl sh = FNone ->
+  (q_batch (sh_q sh) <> [] -> (nbq <= length (q_chan (sh_q sh)))%nat -> sh_flushpush nbq false sh = sh)
+  /\ sh_flushclose sh = sh
+  /\ ((length (q_chan (sh_q sh)) < nbq)%nat ->
+      let sh' := sh_flushpush nbq false sh in
+      sh_fl sh' = FPushed /\ q_batch (sh_q sh') = [] /\ pipe sh' = pipe sh).
+Proof.
+  intros nbq sh H. split; [|split].
+  - intros; apply flush_full_is_noop; auto.
+  - apply close_needs_flush; auto.
+  - intros; apply flush_succeeds_with_room; auto.
+Qed.
+
+(* In every reachable state, whatever the interleaving: a closed queue has no partial batch left
+   behind and its flush has completed; a queue whose flush has not succeeded is still open. *)
+Theorem C40_closed_only_after_flush : forall relab bsz nbq ext n0 ops k sh, (0 < n0)%nat ->
+  nth_error (shards (run relab bsz nbq ext false n0 ops)) k = Some sh ->
+  (q_closed (sh_q sh) = true -> sh_fl sh = FClosed /\ q_batch (sh_q sh) = [])
+  /\ (sh_fl sh = FNone -> q_closed (sh_q sh) = false).
+Proof. exact closed_only_after_flush. Qed.
+
 (* Every Store call carries between 1 and MaxSamplesPerSend samples, unconditionally. *)
 Theorem C40_batch_bound : forall relab bsz nbq ext, (0 < bsz)%nat -> forall n0 ops,
   batches_ok bsz (log (run relab bsz nbq ext false n0 ops)) = true.
